@@ -435,3 +435,82 @@ pub fn gen_concs(seed: u64, profile: Profile, len: usize) -> Vec<String> {
     out.push("drop".into());
     out
 }
+
+/// Histories for the `inject` component: scripted logical threads 0..2 through the phase-split
+/// API as in `gen_concs`, plus, decided by the harness at run time from `iseed`/`irate`, map steps
+/// of logical threads 10..12 taken at the callback points inside maintenance runs. The injected
+/// threads enqueue what they hold when the script tells them to (`penq 10` …).
+pub fn gen_inject(seed: u64, profile: Profile, len: usize) -> Vec<String> {
+    let mut rng = Rng::new(seed);
+    let mut cfg = gen_cfg(&mut rng, "inject", profile, "any");
+    if cfg.weigher == WeigherKind::None || matches!(cfg.weigher, WeigherKind::Const(_)) {
+        cfg.weigher = rng.pick(&[WeigherKind::Val, WeigherKind::VMod(4), WeigherKind::VMod(5)]);
+    }
+    if cfg.cap == Some(0) {
+        cfg.cap = Some(3);
+    }
+    let nkeys = 1 + rng.below(4);
+    let irate = rng.pick(&[1u64, 2, 3, 5]);
+    let mut line = cfg.line(seed, profile);
+    line.push_str(&format!(" irate={} ikeys={}", irate, nkeys));
+    let mut out = vec![line];
+    let nthreads = 2 + rng.below(2);
+    let mut holding = vec![false; nthreads as usize];
+    if rng.chance(1, 2) {
+        out.push("adv 600000000".into());
+    }
+    if rng.chance(1, 3) {
+        // motif: an admission with two victims. Capacity 2, weight = value: keys 0 and 1 (weight 1
+        // each) are resident, key 2 (weight 2) is made popular and inserted; the maintenance run
+        // that admits it has callback points between the removals of its victims.
+        out[0] = format!(
+            "cfg kind=inject cap=2 w=val ttl=none tti=none hash=id profile={} seed={} irate={} ikeys=2",
+            profile.name(), seed, rng.pick(&[2u64, 3, 4]));
+        for l in ["pins 0 0 1", "penq 0", "pins 0 1 1", "penq 0", "sync", "snap",
+                  "pget 0 2", "penq 0", "pget 0 2", "penq 0", "pget 0 2", "penq 0", "sync", "snap",
+                  "pins 0 2 2", "penq 0", "maint", "snap", "pget 1 0", "penq 1", "pget 1 1", "penq 1",
+                  "pget 1 2", "penq 1", "snap"] {
+            out.push(l.to_string());
+        }
+    }
+    for _ in 0..len {
+        let t = rng.below(nthreads);
+        let k = rng.below(nkeys);
+        let l = if holding[t as usize] && rng.chance(2, 3) {
+            holding[t as usize] = false;
+            format!("penq {}", t)
+        } else {
+            match rng.below(16) {
+                0..=4 if !holding[t as usize] => {
+                    holding[t as usize] = true;
+                    format!("pins {} {} {}", t, k, rng.below(12))
+                }
+                5 | 6 if !holding[t as usize] => {
+                    holding[t as usize] = true;
+                    format!("pget {} {}", t, k)
+                }
+                7 => format!("penq {}", 10 + rng.below(6)),
+                8 | 9 => format!("penq {}", 10 + rng.below(6)),
+                10 | 11 | 12 => "maint".to_string(),
+                13 => "sync".to_string(),
+                14 => format!("adv {}", rng.pick(&[100_000_000u64, 500_000_000, SEC])),
+                _ => "maint".to_string(),
+            }
+        };
+        out.push(l);
+        out.push("snap".into());
+    }
+    for t in (0..nthreads).chain(10..16) {
+        out.push(format!("penq {}", t));
+    }
+    out.push("sync".into());
+    out.push("snap".into());
+    // a second round: what was injected during the last run is sent and applied as well
+    for t in 10..16 {
+        out.push(format!("penq {}", t));
+    }
+    out.push("sync".into());
+    out.push("snap".into());
+    out.push("drop".into());
+    out
+}
